@@ -89,6 +89,7 @@ b("C15", GB, "            swap = list(range(lead)) + list(range(lead, lead + sel
 b("C16", RG, "                np.logical_not(self.output_mask.ravel(order=self.output_grid.order))\n", "                np.logical_not(self.output_mask.ravel())\n", "target mask raveled in C order")
 b("C16", RG, "        tree = KDTree(self._get_in_coords(), **kw)\n        # only store IDs, since they will be constant\n", "        tree = KDTree(self.input_grid.data_points, **kw)\n        # only store IDs, since they will be constant\n", "nearest ids computed against all (also masked) source points")
 b("C16", RG, "            dtools.to_compressed(in_data, order=self.input_grid.order)[self.ids],\n            shape=self.output_grid.data_shape,\n            order=self.output_grid.order,\n", "            dtools.to_compressed(in_data, order=self.input_grid.order)[self.ids],\n            shape=self.output_grid.data_shape,\n            order=self.input_grid.order,\n", "nearest result filled in the source grid's order")
+b("C16", RG, "            self.output_mask if self.output_mask is not None else self.downstream_mask\n", "            self.downstream_mask if self.downstream_mask is not None else self.output_mask\n", "target mask given to the adapter (out_mask) overridden by the consumer's flexible mask")
 b("C16", RG, "                res[self.out_ids] = self.inter.values[self.fill_ids, 0]\n", "                res[self.out_ids] = self.inter.values[self.fill_ids[::-1], 0]\n", "fill ids of the unstructured linear path reversed")
 # ---- C17
 b("C17", UN, "    _UNIT_PAIRS_CACHE[(unit1, unit2)] = compat, equiv\n", "    _UNIT_PAIRS_CACHE[(unit1, unit2)] = compat, equiv\n    _UNIT_PAIRS_CACHE[(unit2, unit1)] = compat, equiv\n", "cache filled symmetrically")
